@@ -179,9 +179,6 @@ Proof.
 Qed.
 
 (* ---------------------------------------------------------------- model-level corollaries *)
-Lemma discovery_none c f : discovery_complete c f None.
-Proof. intros m _ _. reflexivity. Qed.
-
 Lemma t0_without_limit c f R : wf_file f -> range_has_t0 c f R -> range_has_t0 (no_limit c) f R.
 Proof.
   intros Hwf [H|H]; [left; exact H|right]. cbn [no_limit c_max_bytes].
@@ -196,12 +193,11 @@ Theorem unfiltered_is_log c f : wf_file f ->
   exists l, read_log fixed (no_limit c) f None None None = Ok l /\ map fst l = f_msgs f.
 Proof.
   intros Hwf. exists (spec_read (no_limit c) f None None None). split; [|apply spec_unfiltered].
-  apply read_is_filter_thm; [exact Hwf|left; exact I|apply discovery_none].
+  apply read_is_filter_thm; [exact Hwf|left; exact I].
 Qed.
 
 Theorem combined_is_intersection_thm c f srcs types R :
   wf_file f -> range_has_t0 c f R ->
-  discovery_complete (with_range c R) f srcs -> discovery_complete (with_range (no_limit c) None) f srcs ->
   exists l lt ls lb lr lu,
     read_log fixed c f srcs types R = Ok l /\
     read_log fixed (no_limit c) f None types None = Ok lt /\
@@ -212,27 +208,27 @@ Theorem combined_is_intersection_thm c f srcs types R :
     (forall x, In x l <-> In x lt /\ In x ls /\ In x lb /\ In x lr) /\
     subseq l lu /\ map fst lu = f_msgs f.
 Proof.
-  intros Hwf Ht Hd Hd2.
+  intros Hwf Ht.
   exists (spec_read c f srcs types R), (spec_read (no_limit c) f None types None), (spec_read (no_limit c) f srcs None None),
          (spec_read c f None None None), (spec_read (no_limit c) f None None R), (spec_read (no_limit c) f None None None).
   split; [apply read_is_filter_thm; assumption|].
-  split; [apply read_is_filter_thm; [exact Hwf|left; exact I|apply discovery_none]|].
-  split; [apply read_is_filter_thm; [exact Hwf|left; exact I|exact Hd2]|].
-  split; [apply read_is_filter_thm; [exact Hwf|left; exact I|apply discovery_none]|].
-  split; [apply read_is_filter_thm; [exact Hwf|apply t0_without_limit; assumption|apply discovery_none]|].
-  split; [apply read_is_filter_thm; [exact Hwf|left; exact I|apply discovery_none]|].
+  split; [apply read_is_filter_thm; [exact Hwf|left; exact I]|].
+  split; [apply read_is_filter_thm; [exact Hwf|left; exact I]|].
+  split; [apply read_is_filter_thm; [exact Hwf|left; exact I]|].
+  split; [apply read_is_filter_thm; [exact Hwf|apply t0_without_limit; assumption]|].
+  split; [apply read_is_filter_thm; [exact Hwf|left; exact I]|].
   split; [apply spec_intersection; exact Hwf|]. split; [apply spec_in_file_order|apply spec_unfiltered].
 Qed.
 
 Theorem result_pieces_thm c f srcs types R :
-  wf_file f -> range_has_t0 c f R -> discovery_complete (with_range c R) f srcs ->
+  wf_file f -> range_has_t0 c f R ->
   exists l, read_log fixed c f srcs types R = Ok l /\
     forall m ps, In (m, ps) l ->
       exists pre rest, f_msgs f = pre ++ m :: rest /\
         ps = select5 (flags_of c) [PHeader m; PPayload m; PBytes (m_off m) (m_size m); POffset (m_off m); PIndex (zlen pre)] /\
         length ps = nflags c.
 Proof.
-  intros Hwf Ht Hd. exists (spec_read c f srcs types R). split; [apply read_is_filter_thm; assumption|].
+  intros Hwf Ht. exists (spec_read c f srcs types R). split; [apply read_is_filter_thm; assumption|].
   intros m ps. apply spec_pieces.
 Qed.
 
